@@ -19,7 +19,7 @@ RULE = ('operations over a universe of 14 rules (shared and splitting prefixes, 
         'history of length <= D over the whole alphabet (D=2 quick, 3 thorough) by re-execution; random units: histories of length 6-30. After each '
         'history: probes on ~30 paths x 2 verbs + names + rules + routes + WSGI hook traces, real vs freshly built. Non-trivial = the history '
         'contains a removal or a rejected operation; distinct = distinct history.')
-REQUIRED = ['op_add_method_list', 'histories', 'ops_applied', 'ops_rejected', 'resolve_probes', 'name_probes', 'wsgi_probes', 'hook_firings_compared', 'structure_checks',
+REQUIRED = ['scripted_histories', 'op_add_method_list', 'histories', 'ops_applied', 'ops_rejected', 'resolve_probes', 'name_probes', 'wsgi_probes', 'hook_firings_compared', 'structure_checks',
             'op_add', 'op_remove', 'op_remove_name', 'op_remove_prefix', 'op_add_hook', 'op_remove_hook', 'op_overwrite', 'rejected_method_clash',
             'rejected_name_clash', 'hook_reference_checked', 'removed_then_probed', 'hook_only_prefix_probed']
 EXHAUSTIVE = {'quick': True, 'thorough': True, 'quick_note': 'all histories of length <= 2 over the 76-operation alphabet',
@@ -496,12 +496,50 @@ def random_unit(ctx, unit):
             ctx.sample({'random_history': [list(o) for o in hist[:10]], 'length': L})
 
 
+def scripted_histories():
+    """Multi-step combinations that a depth-2 enumeration cannot reach and random histories reach only by luck:
+    a route under two or three names removed in every way, re-registered, and the stale names used again;
+    hooks installed before the routes that split their node; rejected registrations followed by removals."""
+    out = []
+    for r, pre in (('/a/<x>', '/a/*'), ('/a', '/a*'), ('/h/x', '/h/*'), ('/ab', '/a*')):
+        two = [('add', r, 'GET', 'n1', False), ('add', r, 'PUT', 'n2', False)]
+        three = two + [('add', r, 'POST', 'n3', False)]
+        for base in (two, three):
+            for tail in ([('remove', r)], [('remove_name', 'n1')], [('remove_name', 'n2')], [('remove_prefix', pre)]):
+                out.append(base + tail)
+                out.append(base + tail + [('add', r, 'GET', None, False)])
+                out.append(base + tail + [('add', r, 'GET', None, False), ('remove_name', 'n2')])
+                out.append(base + tail + [('add', r, 'GET', 'n1', False), ('remove_name', 'n2'), ('remove_name', 'n1')])
+        out.append([('add', r, 'GET', 'n1', False), ('add', r, 'GET', 'n2', True), ('remove', r)])
+        out.append([('add', r, 'GET', 'n1', False), ('add', r, 'GET', 'n2', True), ('remove_name', 'n1'), ('add', r, 'POST', None, False)])
+    for h in ('/a', '/a/b', '/ab', '/h', '/a/<x>'):
+        for r1, r2 in (('/a/b', '/ab'), ('/abc', '/ab'), ('/a/<x>/c', '/a/b/<z>'), ('/h/x', '/h/y'), ('/a/<x>', '/a/b')):
+            out.append([('add_hook', h), ('add', r1, 'GET', None, False), ('add', r2, 'GET', None, False)])
+            out.append([('add_hook', h), ('add', r1, 'GET', None, False), ('add', r2, 'GET', None, False), ('remove', r1)])
+            out.append([('add', r1, 'GET', None, False), ('add_hook', h), ('add', r2, 'GET', None, False), ('remove_hook', h)])
+            out.append([('add_hook', h), ('add', r1, 'GET', None, False), ('remove', r1), ('add', r2, 'GET', None, False)])
+    for r in ('/a/<x>', '/h/x'):
+        out.append([('add', r, 'GET', None, False), ('add', r, ('PATCH', 'GET'), 'n1', False), ('remove_name', 'n1'), ('remove', r)])
+        out.append([('add', r, 'GET', 'n1', False), ('add', '/ab', 'GET', 'n1', False), ('remove_name', 'n1'), ('add', '/ab', 'GET', 'n1', False)])
+    return out
+
+
+def scripted_unit(ctx, unit):
+    hs = scripted_histories()
+    for hist in hs:
+        ctx.case(('scripted', tuple(map(str, hist))), nontrivial=True)
+        ctx.count('scripted_histories')
+        run_history(ctx, hist, probe_every=1)
+    ctx.sample({'scripted_histories': len(hs), 'example': [list(map(str, o)) for o in hs[5]]})
+
+
 def plan(tier, seed):
     n = len(alphabet())
     if tier == 'quick':
         sh = 8
-        return [{'kind': 'exh', 'depth': 2, 'first': list(range(i, n, sh))} for i in range(sh)] + [{'kind': 'random', 'n': 120, 'sub': i} for i in range(4)]
-    return [{'kind': 'exh', 'depth': 3, 'first': [i]} for i in range(n)] + [{'kind': 'random', 'n': 1500, 'sub': i} for i in range(16)]
+        return ([{'kind': 'exh', 'depth': 2, 'first': list(range(i, n, sh))} for i in range(sh)] + [{'kind': 'random', 'n': 120, 'sub': i} for i in range(4)]
+                + [{'kind': 'scripted'}])
+    return [{'kind': 'exh', 'depth': 3, 'first': [i]} for i in range(n)] + [{'kind': 'random', 'n': 1500, 'sub': i} for i in range(16)] + [{'kind': 'scripted'}]
 
 
 def run_unit(ctx, unit):
@@ -510,6 +548,8 @@ def run_unit(ctx, unit):
         exh_unit(ctx, unit)
     elif k == 'random':
         random_unit(ctx, unit)
+    elif k == 'scripted':
+        scripted_unit(ctx, unit)
     else:
         hist = [tuple(o) for o in unit['history']]
         run_history(ctx, hist)
